@@ -269,6 +269,8 @@ def handlePreview (j : Json) : Except String Json := do
     ("out", strJ (Markup.previewStr text edits o)),
     ("render", strJ (Markup.render segs)),
     ("reject", strJ (Markup.rejectView segs)),
+    ("read_reject", match Markup.parse (Markup.previewStr text edits o) with | some sg => strJ (Markup.rejectView sg) | none => Json.null),
+    ("read_accept", match Markup.parse (Markup.previewStr text edits o) with | some sg => strJ (Markup.acceptView sg) | none => Json.null),
     ("accept", strJ (Markup.acceptView segs)),
     ("segs", Json.arr (segs.map segJ).toArray),
     ("matches", toJson ((Markup.matchesFrom text edits 0).map fun m => [m.s, m.e, m.idx])),
